@@ -8,7 +8,7 @@ package vs
 // Spin verdicts are never reported without being confirmed against the plain
 // step horizon (explore.go confirm).
 func (x *Exec) spinCheck() bool {
-	if x.steps-x.lastProg < 40 {
+	if x.steps-x.lastProg < 12 {
 		return false
 	}
 	h := uint64(1469598103934665603)
@@ -23,9 +23,28 @@ func (x *Exec) spinCheck() bool {
 		}
 		h = (h ^ v) * 1099511628211
 	}
+	for _, o := range x.objList {
+		if o.State != nil {
+			h = (h ^ o.State() ^ uint64(o.id)<<32) * 1099511628211
+		}
+	}
 	if x.sigSeen == nil {
 		x.sigSeen = map[uint64]int{}
+		x.sigStep = map[uint64]int{}
+	}
+	// fairness: a recurrence only counts if every thread that is enabled now
+	// has run since the previous occurrence (otherwise the repetition is an
+	// artefact of scheduling choices that starve an enabled thread).
+	prev, seen := x.sigStep[h]
+	x.sigStep[h] = x.steps
+	if seen {
+		for _, t := range x.threads {
+			if !t.done && (t.en == nil || t.en()) && t.lastRun <= prev {
+				x.sigSeen[h] = 1
+				return false
+			}
+		}
 	}
 	x.sigSeen[h]++
-	return x.sigSeen[h] >= 4
+	return x.sigSeen[h] >= 3
 }
